@@ -40,7 +40,9 @@ from __future__ import annotations
 from hypothesis import strategies as st
 
 # --------------------------------------------------------------------------------------------- alphabets
-NAMES = ["a", "b", "c", "_p", "__q", "__d__", "A", "B", "_C", "x"]
+# the full grid of 0/1/2 leading x 0/1/2 trailing underscores (special / private / class-private are decided by both ends),
+# plus a few plain duplicates-prone names; used for module members, class members and instance attributes alike
+NAMES = ["a", "r_", "s__", "_p", "_t_", "_u__", "__q", "__v_", "__d__", "b", "A", "_C"]
 
 # values: list of lines; the first goes after "= ", the others are emitted verbatim after the statement indent
 VALUES = [
